@@ -143,16 +143,13 @@ class Expr2Mixin:
 
     # ------------------------------------------------------------------ list construction
     def ev_List(self, node, st):
-        s, items = st, []
-        for e in node.elts:
-            if isinstance(e, ast.Starred):
-                raise Unsupported("starred list element")
-            s, v = self.ev1(e, s)
-            items.append(v)
-        if not items:
-            yield s, s.new_list(VList(NONE, (), z3.IntVal(0), z3.IntVal(0)))     # element kind fixed on first append
-            return
-        yield s, s.new_list(self.list_of(s, items))
+        if any(isinstance(e, ast.Starred) for e in node.elts):
+            raise Unsupported("starred list element")
+        for s, items in self.ev_seq(list(node.elts), st):
+            if not items:
+                yield s, s.new_list(VList(NONE, (), z3.IntVal(0), z3.IntVal(0)))     # element kind fixed on first append
+            else:
+                yield s, s.new_list(self.list_of(s, items))
 
     def list_of(self, st, items: List[V]) -> VList:
         items = [st.lists[i.lid] if isinstance(i, VListRef) else i for i in items]
@@ -283,6 +280,10 @@ class Expr2Mixin:
         gen = node.generators[0]
         s, src = self.ev1(gen.iter, st)
         it = self.iterable(s, src)
+        n0 = z3.simplify(it.n)
+        if z3.is_int_value(n0) and n0.as_long() == 0:
+            yield s, s.new_list(VList(NONE, (), z3.IntVal(0), z3.IntVal(0)))
+            return
         k = z3.Int(fresh_name('ck'))
         x = it.at(k)
         sc = s.fork()                       # scratch state for the quantified body
@@ -400,13 +401,19 @@ class Expr2Mixin:
         groups = {}
         for c in base.classes:
             res = self.resolve_attr(c, attr)
-            groups.setdefault(res[:2] if res[0] != 'field' else ('field', res[1][0]), []).append((c, res))
+            if res[0] == 'field':
+                gkey = ('field', res[1][0])
+            elif res[0] in ('property', 'method'):
+                gkey = (res[0], res[1].name, res[2].name)
+            else:
+                gkey = (res[0], res[1])
+            groups.setdefault(gkey, []).append((c, res))
         multi = len(groups) > 1
         for key, members in groups.items():
             s = st.fork() if multi else st
             classes = tuple(c for c, _ in members)
             if multi:
-                s.assume(z3.Or(*[cls_of(base.t) == self.cls_id(c) for c in classes]))
+                s.assume_branch(z3.Or(*[cls_of(base.t) == self.cls_id(c) for c in classes]))
                 if not self.feasible(s):
                     continue
             o = VObj(base.t, classes)
